@@ -48,6 +48,8 @@ type Solver struct {
 	Log     io.Writer
 	buf     strings.Builder
 	dead    bool
+	// IntMode: every formula is translated to the integer encoding (term.ToInt) before it is sent.
+	IntMode bool
 }
 
 func Argv(name string) []string {
@@ -173,6 +175,9 @@ func name(t *term.T) string { return fmt.Sprintf("t%d", t.ID) }
 
 // define emits definitions for all nodes reachable from t not yet defined.
 func (s *Solver) define(f *term.Factory, t *term.T) string {
+	if s.IntMode {
+		t = f.ToInt(t)
+	}
 	if t.Op == term.OConst {
 		return t.Head(nil)
 	}
@@ -204,6 +209,9 @@ func (s *Solver) define(f *term.Factory, t *term.T) string {
 		switch n.Op {
 		case term.OVar:
 			s.send(fmt.Sprintf("(declare-const %s %s)", n.Name, n.Sort))
+			if term.IsShadow(n) {
+				s.send(fmt.Sprintf("(assert (and (<= 0 %s) (< %s %s)))", n.Name, n.Name, new(big.Int).Lsh(big.NewInt(1), uint(term.ShadowWidth(n))).String()))
+			}
 		case term.OUF:
 			if !s.declUF[n.Name] {
 				s.declUF[n.Name] = true
